@@ -46,6 +46,7 @@ type Scenario struct {
 	Mode      int         `json:"mode"`
 	Unknown   int         `json:"unknown_mode"`
 	Lower     bool        `json:"map_keys_to_lower,omitempty"`
+	SelfEmpty bool        `json:"self_empty_name,omitempty"` // opt.Self("", description): the name comes from the executable
 	Argv      []string    `json:"argv"`
 	Env       [][2]string `json:"env,omitempty"`
 	CompLine  string      `json:"comp_line"`
@@ -108,7 +109,7 @@ func (sc *Scenario) DefinitionCalls() []string {
 }
 
 // Words share prefixes on purpose (abbreviation ambiguity, completion lists with several entries).
-var words = []string{"v", "ver", "verbose", "version", "val", "value", "values", "f", "fo", "foo", "force", "file", "files", "b", "bar", "baz", "build", "x", "xy", "q", "quiet", "quick", "d", "debug", "dry", "t", "tag", "tags", "n", "name", "V", "Ver", "File", "Q", "B", "Tag", "N", "Name", "include", "exclude", "valued"}
+var words = []string{"v", "ver", "verbose", "version", "val", "value", "values", "f", "fo", "foo", "force", "file", "files", "b", "bar", "baz", "build", "x", "xy", "q", "quiet", "quick", "d", "debug", "dry", "t", "tag", "tags", "n", "name", "V", "Ver", "File", "Q", "B", "Tag", "N", "Name", "include", "exclude", "valued", "dry-run", "dry-runs", "v2", "job-count", "jobs", "x-y"}
 var cmdWords = []string{"build", "bench", "bump", "clean", "check", "clone", "test", "tidy", "run", "log", "logs", "login", "show", "slow", "status"}
 
 func genOpts(r *simrt.RNG, taken map[string]bool, n int, reqBias int) []OptDef {
@@ -248,8 +249,10 @@ func valueFor(r *simrt.RNG, o *OptDef) string {
 			return o.Valid[r.Intn(len(o.Valid))]
 		}
 		return []string{"hello", "red", "a b", "-x", ""}[r.Intn(5)]
-	case 3, 6, 9:
+	case 3, 6:
 		return []string{"1", "42", "-3", "x1"}[r.Intn(4)]
+	case 9:
+		return []string{"1", "42", "-3", "x1", "1..3", "5..2"}[r.Intn(6)]
 	case 4, 7, 10:
 		return []string{"1.5", "2", "abc"}[r.Intn(3)]
 	case 11, 12:
@@ -422,6 +425,10 @@ func Generate(seed uint64) *Scenario {
 	if r.Intn(6) == 0 {
 		sc.CompLine += " "
 	}
+	if r.Intn(10) == 0 {
+		sc.CompLine = strings.Replace(sc.CompLine, " ", "  ", 1)
+	}
+	sc.SelfEmpty = r.Intn(10) == 0
 	return sc
 }
 
